@@ -155,7 +155,7 @@ const INLINE_MAP = '\n//# sourceMappingURL=data:application/json;base64,' + Buff
 module.exports = {
   id: 'C05',
   level: 'exploration',
-  rule: 'random configurations (operator subsets x random subsets of a 22-name method pool incl. call/apply/prototype/default/class/plusOperator-as-method, dst omitted/renamed/shared/null, allowedWithoutCallee, stray operator flags, duplicates, every option present/omitted, unknown fields, undeserialisable configs) against programs that mention every pool method in several receiver shapes next to + / += / templates / bare calls / prototype calls. Monitors: hook names emitted subset of configured dst (census), hook only on enabled operations with the configured name and on every enabled required operation (alignment + policy), monotonicity between a configuration and its sub-configuration, defaults observed in the response, prologue semantics executed under V8 in realms with no / pre-installed _ddiast. distinct_nontrivial = distinct (configuration, program) pairs with a decided result.',
+  rule: 'random configurations (operator subsets x random subsets of a 22-name method pool incl. call/apply/prototype/default/class/plusOperator-as-method, dst omitted/renamed/shared/null, allowedWithoutCallee, stray operator flags, duplicates, every option present/omitted, unknown fields, undeserialisable configs) against programs that mention every pool method in several receiver shapes next to + / += / templates / bare calls / prototype calls. Monitors: hook names emitted subset of configured dst (census), hook only on enabled operations with the configured name and on every enabled required operation (alignment + policy), monotonicity between a configuration and its sub-configuration, defaults observed in the response, prologue semantics executed under V8 in realms with no / pre-installed _ddiast. distinct_nontrivial = distinct (configuration, program) pairs with a decided result. Re-prologue shard: a second pass (configuration B) over the OUTPUT of a first pass (a sub-configuration A of B, own prefix) and over user code that merely opens with `if (typeof _ddiast === \'undefined\')`: executed without hooks, the result must define a pass-through for every name configured in B and (for the two-pass case) behave like the original input.',
   assumptions: ['replacement names and prefixes are identifier-valid strings (incl. keywords, non-ASCII, $); other strings cannot be spelled as usable names in the API contract', 'duplicate sources: first entry wins (as a list lookup does); this is what the model assumes'],
   plan (ctx) {
     const n = ctx.tier === 'thorough' ? 12000 : 1500
@@ -163,6 +163,8 @@ module.exports = {
     const shards = []
     for (let k = 0; k < Math.ceil(n / per); k++) shards.push({ kind: 'cfg', count: per, stream: k })
     shards.push({ kind: 'defaults' })
+    // inputs that already open with the prologue's own test: output of an earlier pass (another, shorter configuration), or user code
+    for (let k = 0, m = ctx.tier === 'thorough' ? 16 : 2; k < m; k++) shards.push({ kind: 'reprologue', count: 40, stream: 800 + k })
     shards.push({ kind: 'miri', calls: ctx.tier === 'thorough' ? 4000 : 400 })
     return shards
   },
@@ -229,6 +231,60 @@ module.exports = {
       }
       rep.distinct.push('defaults-a', 'defaults-b')
       rep.samples.push({ undeserialisable_configs: texts, default_prefix_examples: prefixes.slice(0, 5) })
+      return rep
+    }
+    if (spec.kind === 'reprologue') {
+      // pass 1 with a sub-configuration A (own prefix), pass 2 with the full configuration B (A's entries plus others, same replacement
+      // names) on pass 1's OUTPUT - a file that opens with `if (typeof _ddiast === 'undefined') ...`; and user code that merely
+      // opens with such a test. In both cases the prologue of pass 2 must define a pass-through for every name configured in B.
+      const rng = new Rng(ctx.seed, 'c05re', spec.stream)
+      const first = []; const meta = []
+      for (let i = 0; i < spec.count; i++) {
+        const r = rng.fork(i)
+        let B = randomConfig(r)
+        if (!B.csiMethods || B.csiMethods.length < 2) { B = Object.assign({}, B, { csiMethods: [{ src: 'plusOperator', operator: true }, { src: 'trim' }, { src: 'concat', dst: 'cc' }] }) }
+        // first entry per source wins: de-duplicate so that A and B agree on every shared replacement name
+        const seenSrc = new Set(); B.csiMethods = B.csiMethods.filter(e => e && !seenSrc.has(e.src) && seenSrc.add(e.src))
+        const keep = B.csiMethods.filter((_, j) => j % 2 === 0)
+        const A = Object.assign({}, B, { csiMethods: keep, localVarPrefix: 'pa' + i })
+        const B2 = Object.assign({}, B, { localVarPrefix: 'pb' + i, chainSourceMap: false })
+        const userCode = i % 4 === 3
+        const code = mentionProgram(r, r.range(4, 10))
+        meta.push({ A, B: B2, userCode, code })
+        first.push({ code, file: '/srv/app/re.js', meta: { family: 'reprologue' }, config: A, cfgKey: 'A' + i })
+      }
+      const r1 = rewriteJobs(first)
+      const second = []
+      meta.forEach((m, i) => {
+        const resp = r1.responses[i]
+        if (m.userCode) second.push({ code: "if (typeof _ddiast === 'undefined') w.out('no tracer yet');\n" + m.code, file: '/srv/app/re.js', meta: { family: 'reprologue', variant: 'user-code-opens-with-the-test', index: i }, config: m.B, cfgKey: 'B' + i })
+        else if (resp && resp.ok && resp.ok.metrics.status === 'modified') second.push({ code: resp.ok.content, file: '/srv/app/re.js', meta: { family: 'reprologue', variant: 'output-of-an-earlier-pass', index: i }, config: m.B, cfgKey: 'B' + i })
+      })
+      const r2 = rewriteJobs(second)
+      for (let k = 0; k < second.length; k++) {
+        const job = second[k]; const resp = r2.responses[k]
+        const st = kind(resp)
+        bump('reprologue:' + st)
+        if (['abort', 'timeout', 'harness'].includes(st)) { rep.inconclusive.push({ reason: 'harness-' + st, detail: 'reprologue' }); continue }
+        if (st !== 'ok-modified') continue
+        rep.evaluations++
+        rep.distinct.push(hashStr(job.code + JSON.stringify(job.config)))
+        const dm = dstMap(job.config)
+        const push = (kindS, what) => rep.violations.push({ sig: `reprologue:${job.meta.variant}:${kindS}`, what, witness: { code: job.code, config: job.config, meta: job.meta } })
+        const b = await run(resp.ok.content, { hooks: 'none' })
+        if (b.timedOut) { rep.inconclusive.push({ reason: 'exec-timeout', detail: 'reprologue' }); continue }
+        let installed
+        try { installed = vm.runInContext('typeof _ddiast === "object" && _ddiast !== null ? Object.keys(_ddiast) : null', b.ctx) } catch (e) { installed = null }
+        bump('reprologue_executions')
+        if (!installed) { push('prologue-no-object', 'after running the output of the second pass in a realm without _ddiast, no _ddiast object exists'); continue }
+        const missing = Array.from(dm.all).filter(n => !installed.includes(n))
+        if (missing.length) push('prologue-names', `the file opens with the prologue's own test (${job.meta.variant}); after running the second pass's output without hooks the names ${JSON.stringify(missing)} configured for that pass have no pass-through (defined: ${JSON.stringify(installed)})`)
+        if (job.meta.variant === 'output-of-an-earlier-pass') {
+          const a = await run(meta[job.meta.index].code, {})
+          if (!a.timedOut && (a.completion !== b.completion || a.log.join('\n') !== b.log.join('\n'))) push('prologue-run-differs', `running the twice rewritten file without _ddiast differs from the original input: ${a.completion} vs ${b.completion}`)
+        }
+      }
+      if (rep.samples.length < 1 && second.length) rep.samples.push({ reprologue_variant: second[0].meta.variant, second_pass_config: second[0].config, input_head: clip(second[0].code, 300) })
       return rep
     }
     const rng = new Rng(ctx.seed, 'c05', spec.stream)
